@@ -816,4 +816,36 @@ theorem guard_preserves_results (st : St) (hb : st.bits = 16) (d : Bytes) (idx l
       rw [he] at hold; cases hold
     · simp only [hg, if_false]; exact hold
 
+/-- `_get_frames` before the F09 repair (same header part, unguarded 16-bit path) -/
+def getFramesOld (s : St) (idx : Int) (d : Bytes) : R (St × Bytes) := do
+  let (s, i, length) ← soundHeader s idx d
+  let fr ← (if s.bits = 8 then .ok (pySlice d i (i + length))
+            else if s.bits = 16 then sampleArea16Old d i length else .error .value)
+  .ok (s, fr)
+
+theorem getFrames_of_old (st : St) (idx : Int) (d : Bytes) (r : St × Bytes) (h : getFramesOld st idx d = .ok r) :
+    getFrames st idx d = .ok r := by
+  unfold getFramesOld at h
+  unfold getFrames
+  cases hH : soundHeader st idx d with
+  | error e => simp [hH, bind, Except.bind] at h
+  | ok t =>
+    obtain ⟨s, i, length⟩ := t
+    have hle := soundHeader_end_le st idx d _ hH
+    simp only [hH, bind, Except.bind] at h ⊢
+    by_cases h8 : s.bits = 8
+    · simp only [h8, if_true] at h
+      simp only [sampleArea, h8, if_true]
+      exact h
+    · by_cases h16 : s.bits = 16
+      · simp only [h16, if_true] at h
+        have hne : ¬ ((16 : Int) = 8) := by decide
+        simp only [hne, if_false] at h
+        cases hO : sampleArea16Old d i length with
+        | error e => simp [hO] at h
+        | ok fr =>
+          rw [guard_preserves_results s h16 d i length fr hle hO]
+          simpa [hO] using h
+      · simp [h8, h16] at h
+
 end Drx.Snd
